@@ -47,11 +47,11 @@ P["C10"] = {
 }
 
 P["C01"] = {
-    "lean_modules": ["Heathcliff.Props.C01"],
+    "lean_modules": ["Heathcliff.Props.C01", "Heathcliff.Proofs.C01EW"],
     "level": "proof",
     "runs": lambda tier, seed: [{"seed": seed}] if tier == "quick" else [{"seed": seed * 1000 + i} for i in range(4)],
     "search": lambda tier, seed: [{"seed": seed * 7919 + i} for i in range(2)],
-    "rule": "Contexts built by hand (security level None): N = 2..32 (thorough 2..128), 1..4 (6) NTT-friendly primes of 18..60 bits ascending/descending/mixed, plain modulus batching prime / 2^k / 3 / larger than a coefficient prime, special-prime flag set/unset/default, three schemes; plaintexts 0, all t-1, floor/ceil t/2 alternating, 1, short random, single top coefficient, full random; modes public-key / secret-key / secret-key+seed (expanded); encryptions of zero at every level; CKKS at every level with random complex slots. The ciphertext, secret key and plaintext are dumped; the driver recomputes the exact phase with big integers.",
+    "rule": "Contexts built by hand (security level None): N = 2..32 (thorough 2..128), 1..4 (6) NTT-friendly primes of 18..60 bits ascending/descending/mixed, plain modulus batching prime / 2^k / 3 / larger than a coefficient prime, special-prime flag set/unset/default, three schemes; plaintexts 0, all t-1, floor/ceil t/2 alternating, 1, short random, single top coefficient, full random; modes public-key / secret-key / secret-key+seed (expanded); encryptions of zero at every level; CKKS at every level with random complex slots. The ciphertext, secret key and plaintext are dumped; the driver recomputes the exact phase with big integers. `enc_op` lines (N <= 16): the sampling tape is armed around pk / sk / seed-compressed / encrypt_zero_at encryptions (three schemes, every level, fresh and used destinations, plain moduli incl. larger than a coefficient prime); public key, secret key, drawn polynomials, plaintext and stored seed (+ BLAKE3 blocks) are dumped and the model of encryption (Model/Encrypt.lean) recomputes the ciphertext bit for bit.",
     "assumptions": ["the secret key is dumped in coefficient form through the library's own inverse NTT (checked by C09)", "drawn randomness (u, e, a) is whatever the library drew; the exact-phase oracle needs only the key and the ciphertext"],
 }
 
